@@ -130,7 +130,7 @@ def tiger_getline_epilogue_stack(vm):
     addr = vm.registers[1]
     vm.store_memory(addr, len(vm.input_buffer))
     for i, c in enumerate(vm.input_buffer, start=1):
-        vm.store_memory(addr + i, ord(c) & 0xFFFF)
+        vm.store_memory((addr + i) & 0xFFFF, ord(c) & 0xFFFF)
 
 
 # The standard library with parameters-on-the-stack functions.
@@ -680,7 +680,7 @@ def tiger_getline_epilogue_reg(vm):
     addr = vm.registers[1]
     vm.store_memory(addr, len(vm.input_buffer))
     for i, c in enumerate(vm.input_buffer, start=1):
-        vm.store_memory(addr + i, ord(c) & 0xFFFF)
+        vm.store_memory((addr + i) & 0xFFFF, ord(c) & 0xFFFF)
 
 
 def tiger_tstrcmp_reg(vm):
